@@ -7,7 +7,12 @@ def run(tier, seed):
         profiles=[("reload", 2, 250), ("reload", 3, 80), ("async", 2, 60)],
         thorough_profiles=[("reload", 2, 4000), ("reload", 3, 1500), ("async", 2, 1000)],
         mc_actions=("MAdd", "MSendCS", "MSendRAA", "MDeliver", "MSave", "MCrash"),
+        families=[("feecross", 300), ("chainsettle", 60)], thorough_families=[("feecross", 6000), ("chainsettle", 1000)],
         assumptions=cc.COMMON_ASSUMPTIONS + [
             "ChannelMonitor and ChannelMonitorUpdate are compared with the library's own ==; the ChannelManager by "
             "its public projection and by continuing the run on the re-read copy (every later event must still be a "
-            "behaviour of Chan.tla); network graph round trips are checked in C17; scorer and sweeper are not covered"])
+            "behaviour of Chan.tla); monitors of closed channels are round-tripped at every block while the chain settles "
+            "them (fields the library documents as in-memory only are not held against ==); a ProbabilisticScorer fed "
+            "with the run's payment paths is written and re-read in fresh, decayed and re-decayed states and must "
+            "answer like the original afterwards; network graph round trips are checked in C17; the output sweeper is "
+            "not covered"])
